@@ -279,9 +279,14 @@ package fiber
 // the first literal segment seg of a pattern against the detection path dp (see getMatch)
 //@ macro firstLiteral(seg, dp) = (seg.Length <= len(dp) && dp[:seg.Length] == seg.Const) || (seg.HasOptionalSlash && len(dp) == seg.Length - 1 && dp == seg.Const[:seg.Length - 1])
 //@ fn parserMatches(p ref, dp string, path string, partial bool, ep int) bool
+// segsMatch: the same answer as a function of the segment LIST the matcher walks (getMatch reads nothing else of the
+// parser): what a clause needs that speaks about "the pattern P matches the path" for a parser value built by
+// parseRoute(P) into a local variable (App.ErrorHandler, C08: containment in a parameterised mount prefix).
+//@ fn segsMatch(segs slice, dp string, path string, partial bool, ep int) bool
 //@ func (*routeParser).getMatch
 //@   props C02 C05 C07
 //@   defines result == parserMatches(parser, detectionPath, path, partialCheck, epoch)
+//@   defines result == segsMatch(parser.segs, detectionPath, path, partialCheck, epoch)
 //@   requires wf-parser: wfParser(parser)
 //@   requires dp-folds-path: foldPrefix(detectionPath, path)
 //@   modifies elems(params)
